@@ -2,6 +2,15 @@
 """Regenerates MANIFEST.json from the table below (kept in one place so it stays valid)."""
 import json
 CLAIMED = {
+ "C12": dict(tech="model checking: exhaustive deviation-bounded enumeration of upgrade requests from the handshake grammar x Upgrader settings x responseHeader maps on the real Upgrader; independent RFC 6455/7230 reference predicate and line-level response parser",
+             text="All single and pairwise (quick) / triple (thorough) deviations from the canonical valid request are enumerated completely, plus every byte value 0..255 at three positions of application header values. Success iff valid (on decided inputs); 101 response parsed independently (accept digest, subprotocol membership, extension announcement, no injected line); failures: HandshakeError, no hijack, 403/426.",
+             note="don't-care classes in DESIGN.md §6; canonical-key request representation of net/http is the input domain", ref="§4 C12"),
+ "C13": dict(tech="model checking: complete enumeration of (Host, Origin) pairs from scheme x userinfo x host edits x port x suffix on the real Upgrader without CheckOrigin; oracle RFC 3986 authority + A-Z folding",
+             text="1.4 million (quick) origin spellings incl. one-character edits at every position, look-alike runes, percent-escapes, userinfo tricks; accepted implies authority equals Host under ASCII folding, plain same-origin is accepted, everything else gets 403 without hijack.",
+             note="several Origin lines are a don't-care", ref="§4 C13"),
+ "C14": dict(tech="model checking: exhaustive deviation-bounded enumeration of (URL, Dialer settings, caller headers, scripted reply) on the real Dialer over a scripted transport; challenge key traced to a recording random source",
+             text="Connection returned iff the scripted reply is 101 with Upgrade/Connection tokens and the digest of the key sent in this very dial (stale accept from a previous dial included); ErrBadHandshake carries status, headers and <=1024 body bytes; request head parsed line by line (request-URI, Host once, owned headers carry the library's values only); bad URLs cause zero network activity.",
+             note="crypto/rand.Reader replaced by a recording source during an execution; net/http response parser trusted", ref="§4 C14"),
  "C05": dict(tech="model checking / fault enumeration: complete product of stream shapes x every cut offset x every legal way an io.Reader reports the end x chunking x read program on the real reader",
              text="For every cut offset of every stream shape and every fault kind ((0,EOF),(n,EOF),(0,err),(n,err),timeouts) the reference computes which messages had completely arrived; reported-complete messages must be a byte-identical prefix between 'must' and 'may', partial messages end in a non-EOF error, NextReader errors are sticky.",
              note="message completing in the failing transport read itself: either outcome accepted; 5/990 repeated calls", ref="§4 C05"),
